@@ -265,7 +265,7 @@ impl AlternateTime {
                     } else if local_time >= dst_end_transition_end
                         && local_time <= dst_end_transition_start
                     {
-                        Ok(crate::MappedLocalTime::Ambiguous(self.std, self.dst))
+                        Ok(crate::MappedLocalTime::Ambiguous(self.dst, self.std))
                     } else {
                         Ok(crate::MappedLocalTime::Single(self.std))
                     }
@@ -277,7 +277,7 @@ impl AlternateTime {
                     } else if local_time >= dst_end_transition_end
                         && local_time <= dst_end_transition_start
                     {
-                        Ok(crate::MappedLocalTime::Ambiguous(self.std, self.dst))
+                        Ok(crate::MappedLocalTime::Ambiguous(self.dst, self.std))
                     } else if local_time > dst_end_transition_end
                         && local_time < dst_start_transition_start
                     {
@@ -302,7 +302,7 @@ impl AlternateTime {
                     } else if local_time >= dst_start_transition_end
                         && local_time <= dst_start_transition_start
                     {
-                        Ok(crate::MappedLocalTime::Ambiguous(self.dst, self.std))
+                        Ok(crate::MappedLocalTime::Ambiguous(self.std, self.dst))
                     } else if local_time > dst_start_transition_start
                         && local_time < dst_end_transition_start
                     {
@@ -330,7 +330,7 @@ impl AlternateTime {
                     } else if local_time >= dst_start_transition_end
                         && local_time <= dst_start_transition_start
                     {
-                        Ok(crate::MappedLocalTime::Ambiguous(self.dst, self.std))
+                        Ok(crate::MappedLocalTime::Ambiguous(self.std, self.dst))
                     } else {
                         Ok(crate::MappedLocalTime::Single(self.dst))
                     }
